@@ -245,6 +245,12 @@ def oracle(case, r):
         name = op[0]
         if isinstance(res, dict) and 'exc' in res:
             if name == 'set' and op[1][0] in slots:
+                v = dec(op[2])
+                fits = {'int': type(v) is int and -2 ** 63 <= v < 2 ** 63, 'uint': type(v) is int and 0 <= v < 2 ** 64,
+                        'float': type(v) is float, 'bool': type(v) is bool}.get(dt, True)
+                if fits:
+                    return ('set(%s, %r) raised %s although the value is of the declared type %s: it cannot be written and read back'
+                            % (op[1], v, res['exc'], dt))
                 continue        # a write the typed array rejected (TypeError / OverflowError) is not a write: the slot reads as before
             return None
         if name == 'iterate':
